@@ -8,6 +8,7 @@ import (
 	"github.com/oneconcern/datamon/pkg/core/status"
 	"github.com/oneconcern/datamon/pkg/errors"
 	"github.com/oneconcern/datamon/pkg/model"
+	"github.com/oneconcern/datamon/pkg/verifhook"
 	"github.com/segmentio/ksuid"
 	"go.uber.org/zap"
 )
@@ -255,6 +256,7 @@ func (d *Diamond) mergeSplits(filePackedC chan<- filePacked, errorC chan<- error
 		for res := range input {
 			splitID := res.id
 			d.l.Debug("merge received batch", zap.String("from split", splitID), zap.Int("num_entries", len(res.bundleEntries.BundleEntries)))
+			verifhook.Emit("diamond.merge.batch", splitID, len(res.bundleEntries.BundleEntries))
 			for _, file := range res.bundleEntries.BundleEntries {
 				select {
 				case <-interrupt:
